@@ -150,12 +150,50 @@ def run(ctx):
             if got != spec:
                 viol(ctx, f"{kind}:mask-float", f"BoolCFGLM({kind}).p_next({c}) on a Float grammar with weights 1e-200 offers {sorted(got)}, viable continuations are {sorted(spec)}",
                      {"kind": "mask", "alg": kind, "sr": "float", "grammar": fg, "context": c, "observed": sorted(got), "expected": sorted(spec)})
+    search_leftcorner(ctx, 300 if quick else 2500)
     g, ge, gid, cs = plan[0]
     ctx.sample({"grammar": g, "contexts": cs[:4], "masks": [[("eos" if t == g["nT"] else t) for t in range(g["nT"] + 1) if tab.get(gid, c + [t])] for c in cs[:4]]})
 
 
+def search_leftcorner(ctx, n):
+    """volume search on grammars with cyclic left-corner graphs and longer contexts: the Earley and the CKY back-end are
+    run on the same histories; where they disagree the harness-side mirror of the proved prefix semantics decides"""
+    gs = [M.rand_leftcorner_grammar(ctx.rng) for _ in range(n)]
+    plans = []
+    for g in gs:
+        cs = [list(x) for x in M.strings(g["nT"], 2)]
+        cs += [[ctx.rng.randrange(g["nT"]) for _ in range(ctx.rng.randint(3, 5))] for _ in range(12)]
+        plans.append((g, cs))
+    for hs in (0, 1, 2):
+        out = {}
+        for kind in ("bool_earley", "bool_cky"):
+            out[kind] = run_lm([{"g": g, "sr": "bool", "kind": kind, "ops": [["p_next", c] for c in cs], "timeout": 60} for g, cs in plans], hashseed=hs)
+        for (g, cs), a, b in zip(plans, out["bool_earley"], out["bool_cky"]):
+            ctx.dist("left-corner-search")
+            if "results" not in a or "results" not in b:
+                continue
+            for i, (c, x, y) in enumerate(zip(cs, a["results"], b["results"])):
+                ctx.cov["oracle_cases"] += 1
+                if "ok" not in x or "ok" not in y or set(x["ok"]) == set(y["ok"]):
+                    continue
+                ge = M.add_eos(g)
+                m = M.pmirror_bool(ge)
+                spec = set()
+                for t in list(range(g["nT"])) + ["eos"]:
+                    tt = g["nT"] if t == "eos" else t
+                    if m.prefix(ge["S"], list(c) + [tt], fuel=80):
+                        spec.add(str(t))
+                for kind, q in (("bool_earley", x), ("bool_cky", y)):
+                    if set(q["ok"]) != spec:
+                        viol(ctx, f"{kind}:mask", f"BoolCFGLM({kind}).p_next({c}) offers {sorted(q['ok'])} after the queries {cs[:i]}; viable continuations are {sorted(spec)} (hash seed {hs})",
+                             {"kind": "mask", "alg": kind, "grammar": g, "context": c, "history": cs[:i], "hashseed": hs, "observed": sorted(q["ok"]), "expected": sorted(spec)})
+                break
+
+
 def replay(obj):
-    r = run_lm([{"g": obj["grammar"], "sr": obj.get("sr", "bool"), "kind": obj["alg"], "ops": [["p_next", obj.get("context", [])]]}])[0]
+    r = run_lm([{"g": obj["grammar"], "sr": obj.get("sr", "bool"), "kind": obj["alg"], "ops": [["p_next", c] for c in obj.get("history", [])] + [["p_next", obj.get("context", [])]]}], hashseed=obj.get("hashseed", 0))[0]
+    if "results" in r:
+        r = r["results"][-1]
     print("grammar:", json.dumps(obj["grammar"]))
     print("p_next(", obj.get("context"), ") ->", r, "expected mask:", obj.get("expected"))
     return 0
